@@ -280,6 +280,35 @@ def build_erase(cfg):
     return exe
 
 
+def build_solo(cfg, kind, storage):
+    """one-victim, one-erase-call client (harness/erase/solo.c); the observer solo_main.c is compiled -O0 outside the LTO unit"""
+    li = build.build_lib(cfg)
+    cc, d, h = li["cc"], li["dir"], os.path.join(VERIF, "harness", "erase")
+    import hashlib
+    hh = hashlib.sha256(b"".join(open(os.path.join(h, f), "rb").read() for f in ("solo.c", "solo_main.c"))).hexdigest()[:10]
+    exe = os.path.join(d, "solo-%s-%d-%d" % (hh, kind, storage))
+    if os.path.exists(exe):
+        return exe
+    copt = [f for f in li["cflags"] if f.startswith("-O") or f.startswith("-f")]
+    objs = []
+    for src, flags in [("solo_main.c", ["-O0", "-fno-lto"]), ("solo.c", copt + ["-DKIND=%d" % kind, "-DSTORAGE=%d" % storage])]:
+        o = os.path.join(d, "solo_%s_%d_%d_%d.o" % (src[:-2], kind, storage, os.getpid())); objs.append(o)
+        r = subprocess.run([cc, "-c", "-w", "-g", "-D_GNU_SOURCE", "-I" + li["inc"], "-I" + build.REPO] + flags + ["-o", o, os.path.join(h, src)],
+                           stdout=subprocess.PIPE, stderr=subprocess.STDOUT)
+        if r.returncode:
+            raise RuntimeError("solo client build failed: " + r.stdout.decode()[:3000])
+    link = [cc] + [f for f in copt if f.startswith("-O") or f == "-flto"] + ["-o", exe + ".tmp"] + objs + [li["lib"]]
+    if cc.startswith("clang") and "-flto" in copt:
+        link.insert(1, "-fuse-ld=lld")
+    r = subprocess.run(link, stdout=subprocess.PIPE, stderr=subprocess.STDOUT)
+    if r.returncode:
+        raise RuntimeError("solo client link failed: %s\n%s" % (" ".join(link), r.stdout.decode()[:3000]))
+    os.rename(exe + ".tmp", exe)
+    for o in objs:
+        os.unlink(o)
+    return exe
+
+
 def _c18(tier):
     t0 = time.time()
     res = Results("C18")
@@ -294,7 +323,49 @@ def _c18(tier):
             return cfg, -1, "", repr(e)[:600]
     with ThreadPoolExecutor(max_workers=8) as ex:
         outs = list(ex.map(one, cfgs))
+    # solo clients: one victim, one erase call per program, secret derived in place (address never escapes before the call)
+    solo_cfgs = ["O2lto", "O3lto"] if tier == "quick" else ["O1", "O2", "O3", "O0lto", "O2lto", "O3lto", "clangO2", "clangO2lto"]
+    solo_st = [0, 1, 3] if tier == "quick" else [0, 1, 2, 3]
+    def solo_one(a):
+        cfg, k, st = a
+        try:
+            exe = build_solo(cfg, k, st)
+            p = subprocess.run([exe, tier], stdout=subprocess.PIPE, stderr=subprocess.PIPE, timeout=900)
+            return cfg, k, st, p.returncode, p.stdout.decode(errors="replace"), p.stderr.decode(errors="replace")[-500:]
+        except Exception as e:
+            return cfg, k, st, -1, "", repr(e)[:600]
+    for cfg in solo_cfgs:
+        build.build_lib(cfg)        # once per configuration, before the parallel client builds
+    with ThreadPoolExecutor(max_workers=NCPU) as ex:
+        souts = list(ex.map(solo_one, [(c, k, st) for c in solo_cfgs for k in range(8) for st in solo_st]))
     matrix, floor_ok, floor_msg = {}, True, []
+    solo_matrix = {}
+    for cfg, k, st, rc, out, err in souts:
+        ended = False
+        for line in out.splitlines():
+            if not line.startswith("{"):
+                continue
+            r = json.loads(line)
+            if r.get("t") == "end":
+                ended = True
+            if r.get("t") != "solo":
+                continue
+            res.count("cases", r["cases"]); res.count("solo_cases", r["cases"]); res.count("solo_windows_searched", r["windows"])
+            solo_matrix.setdefault(cfg, {})[r["fn"] + "/" + r["storage"]] = dict(cases=r["cases"], windows=r["windows"], found=r["windows_found"])
+            res.distinct.add("solo|%s|%s|%s" % (cfg, r["fn"], r["storage"]))
+            if r["fn"].startswith("CONTROL"):
+                if r["storage"].startswith("stack") and cfg not in ("O0lto",) and r["windows_found"] == 0:
+                    floor_ok = False; floor_msg.append("solo positive control (plain memset, %s) left no secret window in %s: observer not sensitive there" % (r["storage"], cfg))
+                continue
+            w = dict(harness="erase/solo", cfg=cfg, fn=r["fn"], storage=r["storage"], first_n=r["first_n"], first_off=r["first_off"], replay="solo %s kind=%d storage=%d %s" % (cfg, k, st, tier))
+            if r["windows_found"]:
+                res.add_violation("C18", "C18|%s|secret-survives-in-single-call-site-client|%s|%s" % (r["fn"], r["storage"], cfg),
+                                  "%s returned EOK but %d of %d 8-byte windows of the secret are still in the dead %s buffer (%d of %d cases; client with one erase call, secret derived in place, build %s; first n=%d off=%d)" %
+                                  (r["fn"], r["windows_found"], r["windows"], r["storage"], r["bad_cases"], r["cases"], cfg, r["first_n"], r["first_off"]), w)
+            if r["rc_bad"]:
+                res.add_violation("C18", "C18|%s|erase-call-failed|%s|%s" % (r["fn"], r["storage"], cfg), "%s did not return EOK in %d cases of the solo client" % (r["fn"], r["rc_bad"]), w)
+        if rc != 0 or not ended:
+            res.incomplete.append("solo/%s/%d/%d" % (cfg, k, st)); res.notes.append("solo %s %d %d rc=%s %s" % (cfg, k, st, rc, err))
     for cfg, rc, out, err in outs:
         ended = False
         for line in out.splitlines():
@@ -329,8 +400,10 @@ def _c18(tier):
     return finish(res, tier, "exploration",
                   "client programs: {memset_s, memzero_s, memset16_s, memset32_s, memzero16_s, memzero32_s, strzero_s} x {stack, heap-then-free, static} buffer that is dead "
                   "after the call x n in {1..40,63,64,65,255,4096} (quick: 19 sizes) x alignment 0..7 x fill {0,0xFF,0x5A}, client and library both built per configuration; "
-                  "the dead buffer is read out-of-band after the frame is gone; distinct = (configuration, function, storage) cells with all their cases", t0,
-                  extra_cov=dict(configurations=cfgs, matrix=matrix, harnesses=["erase"],
+                  "the dead buffer is read out-of-band after the frame is gone; plus solo clients (one victim with one erase call per program, secret derived in place so that the address "
+                  "never escapes before the call, storage stack / heap-then-free / static / constant-size stack key) whose dead stack region, recycled heap block or static array is "
+                  "searched for 8-byte windows of the secret; distinct = (configuration, function, storage) cells with all their cases", t0,
+                  extra_cov=dict(configurations=cfgs, matrix=matrix, solo_configurations=solo_cfgs, solo_matrix=solo_matrix, harnesses=["erase", "erase/solo"],
                                  positive_control="plain memset in the same client must leave secret bytes on the stack at -O1 and above"),
                   assumptions=["gcc 12 / clang 14 on x86-64 with the flags listed; other compilers or flags are not covered",
                                "copies of the secret in registers or spill slots are outside the statement"],
@@ -431,6 +504,7 @@ def _c17(tier):
     for cfg in ("plain", "asan"):
         li = build.build_lib(cfg); exe = build.build_harness(li, "uni", ["uni.c"])
         jobs.append(("uni/fold/" + cfg, [exe, "--prop", "C17", "--tier", tier, "--seed", str(seed()), "--cfg", cfg, "--mode", "fold"]))
+        jobs.append(("uni/fcstr/" + cfg, [exe, "--prop", "C17", "--tier", tier, "--seed", str(seed()), "--cfg", cfg, "--mode", "fcstr"]))
     run_workers(jobs, res, env=dict(os.environ, ASAN_OPTIONS="detect_leaks=0:abort_on_error=1"))
     # norm: differential against Python unicodedata through a pipe
     li = build.build_lib("plain"); exe = build.build_harness(li, "uni", ["uni.c"])
@@ -441,7 +515,7 @@ def _c17(tier):
     for cls, n in counters["classes"].items():
         res.distinct.add("norm|" + cls); res.count("norm_class_" + cls, n)
     res.samples = samples
-    res.evaluations = counters["driver_calls"] + res.counters.get("fold_cases", 0)
+    res.evaluations = counters["driver_calls"] + res.counters.get("fold_cases", 0) + res.counters.get("fold_string_cases", 0)
     return finish(res, tier, "exploration",
                   "normalisation: every code point assigned in Python's UCD %s alone (quick: BMP + every third supplementary) and followed by U+0301, every Hangul LxV and LVxT jamo sequence and "
                   "precomposed syllable, every canonical two-part decomposition (starter, mark) and with an extra mark, seeded random strings of <= 12 starters with 0-18 reordered combining "
